@@ -110,7 +110,14 @@ def parse_output(res, job, out):
         elif line.startswith("@VIOL "):
             m = re.match(r"@VIOL kf=(\S+) op=(\S+) args=(\S*) msg=(.*)$", line)
             if m:
-                res.viols.append({"job": job, "kf": m.group(1), "op": m.group(2), "args": m.group(3), "msg": m.group(4)})
+                if job.get("memory_only"):
+                    # C08 re-runs of other properties' drivers: value disagreements belong to those properties; only the
+                    # memory-safety verdicts of the harnesses (guard bytes, writes outside a buffer) count here
+                    if not re.search(r"wrote|beyond|outside|guard|overran|buffer one byte|too-short|short buffer|not refused|exceed the precision", m.group(4)):
+                        continue
+                    res.viols.append({"job": job, "kf": "-", "op": m.group(2), "args": m.group(3), "msg": m.group(4)})
+                else:
+                    res.viols.append({"job": job, "kf": m.group(1), "op": m.group(2), "args": m.group(3), "msg": m.group(4)})
         elif line.startswith("@BOUND "):
             parts = line.split(" ")
             res.bounds.setdefault(job["name"] + ":" + parts[1], set()).add(parts[2])
@@ -128,7 +135,7 @@ def run_shard(res, exe, job, tier, shard, nshards, deadline, seed, extra=()):
     cmd = [exe, "--shard", "%d/%d" % (shard, nshards), "--tier", tier, "--deadline", "%.0f" % deadline,
            "--seed", str(seed)] + list(job.get("args", [])) + list(extra)
     try:
-        p = subprocess.run(cmd, capture_output=True, text=True, env=ENV, errors="replace",
+        p = subprocess.run(cmd, capture_output=True, text=True, env=dict(ENV, **job.get("env", {})), errors="replace",
                            timeout=deadline * 1.5 + 300)
         out, err, rc = p.stdout, p.stderr, p.returncode
     except subprocess.TimeoutExpired as e:
@@ -180,7 +187,7 @@ def run_job(res, job, tier, deadline, seed):
 def replay_case(exe, job, casetext, timeout=600):
     cmd = [exe] + list(job.get("args", [])) + ["--replay", casetext]
     try:
-        p = subprocess.run(cmd, capture_output=True, text=True, env=ENV, errors="replace", timeout=timeout)
+        p = subprocess.run(cmd, capture_output=True, text=True, env=dict(ENV, **job.get("env", {})), errors="replace", timeout=timeout)
     except subprocess.TimeoutExpired:
         return "hang", "", ""
     if "@REPLAY violation" in p.stdout:
@@ -215,7 +222,7 @@ def kf_match(pid, v, findings):
             except ValueError:
                 a = []
             try:
-                if not eval(f["when"], {"__builtins__": {}}, {"a": a, "op": v["op"], "msg": v["msg"], "abs": abs, "len": len}):
+                if not eval(f["when"], {"__builtins__": {}, "a": a, "op": v["op"], "msg": v["msg"], "abs": abs, "len": len, "any": any, "all": all}):
                     continue
             except Exception:
                 continue
@@ -464,7 +471,7 @@ def main():
         job = [j for j in PROPS[a[1]]["jobs"] if j["name"] == a[2]][0]
         wdir = worlds.build(job["world"])
         exe = compile_harness(wdir, job["world"], job)
-        return subprocess.run([exe] + list(job.get("args", [])) + a[3:], env=ENV).returncode
+        return subprocess.run([exe] + list(job.get("args", [])) + a[3:], env=dict(ENV, **job.get("env", {}))).returncode
     pid = a[0]
     tier = os.environ.get("VERIF_TIER", "quick")
     if "--tier" in a:
